@@ -65,6 +65,7 @@ pub mod tcp {
 }
 pub mod serial {
     pub use crate::shims::net::open;
+    pub use crate::shims::net::SerialSettings;
 //@include-if client frag/serial_mods.tpl
     pub mod frame {
 //@include frag/serial_frame.tpl
@@ -84,6 +85,7 @@ pub mod client {
 //@include-if client frag/client_requests_mods.tpl
     }
     pub use requests::write_multiple::WriteMultiple;
+//@include-if client frag/client_reexports.tpl
 //@include-if client frag/client_mods.tpl
 }
 pub mod server {
